@@ -67,7 +67,38 @@ def split_params(s: str) -> List[str]:
     return out
 
 
-def parse_file(fname: str, text: str, strict=None) -> List[CsClass]:
+# C# treats these as line terminators too: inside a generated string literal or `//` comment they cut the line
+CS_NEWLINES = "\u0085\u2028\u2029"
+_CS_STRING = r'"(?:\\(?:[\\\'"0abfnrtv]|u[0-9a-fA-F]{4}|U[0-9a-fA-F]{8}|x[0-9a-fA-F]{1,4})|[^"\\])*"'
+_CS_VALUE = rf'(?:{_CS_STRING}|typeof\((?:[^()"]|\([^()"]*\))*\)|-?\d+|[A-Za-z_][\w.]*)'
+_CS_ARG = rf'(?:[A-Za-z_]\w*\s*=\s*)?{_CS_VALUE}'
+ATTR_GROUP_RE = re.compile(rf'\[[A-Za-z_][\w.]*(?:\((?:{_CS_ARG}(?:,\s*{_CS_ARG})*)?\))?\]')
+
+
+def attribute_prefix_ok(line: str) -> bool:
+    """line starts with `[`: it must be a sequence of well-formed attribute groups (string arguments are closed regular
+    string literals with valid escapes), optionally followed by an enum member name and a comma."""
+    pos = 0
+    while pos < len(line) and line[pos] == "[":
+        m = ATTR_GROUP_RE.match(line, pos)
+        if not m:
+            return False
+        pos = m.end()
+        while pos < len(line) and line[pos] == " ":
+            pos += 1
+    return re.fullmatch(r"(?:\w+,)?", line[pos:]) is not None
+
+
+def parse_file(fname: str, text: str, strict=None, malformed: Optional[List[str]] = None) -> List[CsClass]:
+    if malformed is not None:
+        for ch in CS_NEWLINES:
+            if ch in text:
+                malformed.append(f"{fname}: the character U+{ord(ch):04X} (a line terminator of C#) occurs inside the generated source")
+                text = text.replace(ch, " ")
+        for raw in text.splitlines():
+            s = raw.strip()
+            if s.startswith("[") and not attribute_prefix_ok(s):
+                malformed.append(f"{fname}: malformed attribute line {s[:120]!r}")
     lines = [ln.strip() for ln in text.splitlines()]
     out: List[CsClass] = []
     i = 0
@@ -201,13 +232,18 @@ class CsOracle:
         self.m = Model(doc)
         self.classes: Dict[str, CsClass] = {}
         self.dups: List[str] = []
+        self.malformed: List[str] = []
         for fname, text in sorted(files.items()):
             if custom_files and fname in custom_files:
                 continue
-            for c in parse_file(fname, text, self.strict_names()):
-                if c.name in self.classes:
-                    self.dups.append(c.name)
-                self.classes[c.name] = c
+            try:
+                for c in parse_file(fname, text, self.strict_names(), self.malformed):
+                    if c.name in self.classes:
+                        self.dups.append(c.name)
+                    self.classes[c.name] = c
+            except HarnessError:
+                if not any(m.startswith(fname + ":") for m in self.malformed):
+                    raise   # the parser's own limit, not a lexical defect it has already pinned down
         self.out: List[Finding] = []
         self.evaluations = 0
 
@@ -331,6 +367,9 @@ class CsOracle:
         m = self.m
         for d in self.dups:
             self.fail("duplicate-class", d, "declared twice")
+        for msg in self.malformed:
+            self.fail("malformed-source", msg.split(":")[0], msg)
+        self.evaluations += 1
         for name in m.structs:
             if name.startswith("_"):
                 continue
